@@ -289,6 +289,23 @@ FIXED_SOURCES = [
 ]
 
 
+# runs of side-effect blocks: k blocks in a row (with / without blanks between them), with / without a leading operand,
+# followed by a value in several spellings - the shapes in which "does this block have an operand" is decided by
+# walking along the run
+def block_runs():
+    out = []
+    for k in (1, 2, 3, 4, 5):
+        for sep in (" ", ""):
+            run = sep.join("[%d]" % (j + 1) for j in range(k))
+            for lead in ("", "4 ", "4", "7, ", "(4) ", "{4}~~ "):
+                for tail in (" 5", "5", " (5)", " 5 6", " + 5", "", " , 5", " {5}~~"):
+                    out.append(lead + run + tail)
+    return out
+
+
+FIXED_SOURCES = FIXED_SOURCES + block_runs()
+
+
 # ------------------------------------------------------------------ harness output
 def fields(result):
     out = {}
